@@ -934,6 +934,9 @@ impl Context {
             let exit_early = self.vm.frame().exit_early();
 
             if self.vm.handle_exception_at(pc) {
+                // The handler lives in this frame: the frames popped above it are gone,
+                // so remove their stack slots too.
+                self.vm.stack.truncate_to_frame(&frame);
                 return ControlFlow::Continue(());
             }
 
